@@ -784,3 +784,51 @@ def register_ints(lib):
         if name.endswith('rem_euclid'):
             return a % b if type(a) is int else T.urem(w, a, b)
         return a // b if type(a) is int else T.udiv(w, a, b)
+
+
+def register_cmp(lib):
+    """structural equality of slices / arrays / vectors of scalars"""
+    I = lib.I
+    reg = lib.reg
+
+    def seq_eq(a, b):
+        if len(a) != len(b):
+            return 0
+        acc = 1
+        for x, y in zip(a, b):
+            if type(x) is Ptr:
+                x = x.c[x.k]
+            if type(y) is Ptr:
+                y = y.c[y.k]
+            if type(x) is L and type(y) is L and x.tag == y.tag and x.tag not in ('enum', 'symenum') and len(x) == len(y):
+                acc = T.land(acc, seq_eq(list(x), list(y)))
+                continue
+            if type(x) not in (int, Term) or type(y) not in (int, Term):
+                raise Unsupported('equality of non-scalar elements')
+            w = max([t.w for t in (x, y) if type(t) is Term] + [8])
+            acc = T.land(acc, T.eq(w, x, y))
+            if type(acc) is int and not acc:
+                return 0
+        return acc
+
+    @reg(r'^<\[.*\] as PartialEq(<.*>)?>::eq$|^<Vec<.*> as PartialEq(<.*>)?>::eq$|^<&\[.*\] as PartialEq(<.*>)?>::eq$|^<&mut \[.*\] as PartialEq(<.*>)?>::eq$',
+         'slice/array/Vec equality')
+    def _slice_eq(fr, name, args, ops):
+        def items(v):
+            if type(v) is Ptr and type(v.c[v.k]) in (SliceRef, Ptr):
+                v = v.c[v.k]
+            sl = lib.as_slice(v)
+            if any(type(x) is Guarded for x in sl.items()):
+                raise Unsupported('equality of sequences with conditional pieces')
+            return sl.items()
+        return seq_eq(items(args[0]), items(args[1]))
+
+    @reg(r'^core::slice::<impl \[.*\]>::starts_with$', 'slice::starts_with')
+    def _sl_starts(fr, name, args, ops):
+        a, b = lib.as_slice(args[0]).items(), lib.as_slice(args[1]).items()
+        return seq_eq(a[:len(b)], b) if len(b) <= len(a) else 0
+
+    @reg(r'^core::slice::<impl \[.*\]>::ends_with$', 'slice::ends_with')
+    def _sl_ends(fr, name, args, ops):
+        a, b = lib.as_slice(args[0]).items(), lib.as_slice(args[1]).items()
+        return seq_eq(a[len(a) - len(b):], b) if len(b) <= len(a) else 0
